@@ -134,3 +134,89 @@ def O2w(vc):
     vc.canary('canary.never_spawns', len(spawned) == 0)
     vc.canary('canary.always_gated', all(t.coro.kw['resource_indexed'] is not None for t in spawned))
     return ('done', len(spawned), len(made))
+
+
+# ----------------------------------------------------------------------------------------------- O2t
+@harness('O2t', targets=['kopf._core.reactor.orchestration.terminate_redundancies', 'kopf._core.reactor.orchestration.Ensemble.get_keys',
+                         'kopf._core.reactor.orchestration.Ensemble.get_tasks', 'kopf._core.reactor.orchestration.Ensemble.get_flags',
+                         'kopf._core.reactor.orchestration.Ensemble.del_keys'],
+         props=['C20', 'C19', 'C13'],
+         clauses=['live_tasks_stay_owned', 'stops_exactly_the_redundant', 'drops_exactly_their_flags', 'forgets_exactly_the_redundant',
+                  'stopped_before_forgotten'],
+         canaries=['canary.nothing_redundant'],
+         assumes=['shape: three keys (a kind in two namespaces, a cluster-wide kind), each with one of four task/flag shapes; which kinds and '
+                  'namespaces stay served is free (the comprehension over the ensemble keys runs natively)'],
+         trusted=['aiotasks.stop(tasks): suspends; when it returns every given task is done (S4); a cancellation may arrive while it waits',
+                  'ToggleSet.drop_toggles (AK2)'])
+def O2t(vc):
+    """
+    orchestration.terminate_redundancies (the real Ensemble methods inlined), C20 "the whole operator shuts down rather than
+    lingering half-alive ... cleanup handlers run after everything else has stopped" and C19 "none for anything else":
+      live_tasks_stay_owned   at every suspension point inside it -- where the orchestrator may be cancelled, and then stops
+                              exactly ensemble.get_tasks(ensemble.get_keys()) -- every stream task that has not ended yet is
+                              still registered in the ensemble: nothing alive is ever un-owned;
+      stops_exactly_the_redundant     aiotasks.stop gets exactly the tasks of keys whose namespace or resource is no longer served;
+      drops_exactly_their_flags       ... and exactly their conflict toggles leave operator_paused (no stale pause);
+      forgets_exactly_the_redundant   afterwards the ensemble holds exactly the entries of the remaining keys;
+      stopped_before_forgotten        a key is forgotten only after its tasks have ended.
+    """
+    from kopf._core.reactor import orchestration
+    Key = orchestration.EnsembleKey
+    ra, rb = _res('alphas'), _res('betas')
+    keys = [Key(ra, 'ns1'), Key(ra, 'ns2'), Key(rb, None)]
+    remaining_res = {r for r in (ra, rb) if vc.nondet(2, f'{r.plural} still served?') == 1}
+    remaining_ns = {ns for ns in ('ns1', 'ns2') if vc.nondet(2, f'{ns} still served?') == 1} | {None}
+
+    class Task:
+        def __init__(self, name):
+            self.name, self.ended = name, False
+
+        def __repr__(self):
+            return f'<task {self.name}>'
+    ens = orchestration.Ensemble(operator_indexed=Opaque('operator_indexed'), operator_paused=None, peering_missing=Opaque('peering_missing'))
+    all_tasks, flags = [], {}
+    SHAPES = [(), ('watcher',), ('watcher', 'peering', 'pinging', 'flag'), ('peering', 'flag')]
+    for k in keys:
+        shape = SHAPES[vc.nondet(len(SHAPES), f'what exists for {k.resource.plural}@{k.namespace}')]
+        for kind, d in (('watcher', ens.watcher_tasks), ('peering', ens.peering_tasks), ('pinging', ens.pinging_tasks)):
+            if kind in shape:
+                d[k] = Task(f'{kind}:{k.resource.plural}@{k.namespace}')
+                all_tasks.append((k, d[k]))
+        if 'flag' in shape:
+            ens.conflicts_found[k] = flags[k] = Opaque(f'flag:{k.resource.plural}@{k.namespace}')
+    redundant = [k for k in keys if k.namespace not in remaining_ns or k.resource not in remaining_res]
+    stopped, dropped, events = [], [], []
+
+    def owned():
+        return set(ens.get_tasks(ens.get_keys()))
+
+    def at_suspension(site):
+        for k, t in all_tasks:
+            vc.ensure('live_tasks_stay_owned', t.ended or t in owned())
+        return None
+
+    async def stop(tasks, **kw):
+        tasks = list(tasks)
+        stopped.append(tasks)
+        events.append('stop')
+        await suspend('aiotasks.stop')
+        for t in tasks:
+            t.ended = True
+
+    class Paused:
+        async def drop_toggles(self, toggles):
+            dropped.append(set(toggles))
+            events.append('drop')
+            await suspend('drop_toggles')
+    ens.operator_paused = Paused()
+    ld = vc.load('kopf._core.reactor.orchestration', 'terminate_redundancies', stubs={'aiotasks.stop': stop, 'logger': NullLogger()})
+    vc.drive(ld.fn(remaining_resources=remaining_res, remaining_namespaces=remaining_ns, ensemble=ens), on_suspend=at_suspension)
+    want_tasks = {t for k, t in all_tasks if k in redundant}
+    vc.ensure('stops_exactly_the_redundant', len(stopped) == 1 and set(stopped[0]) == want_tasks)
+    vc.ensure('drops_exactly_their_flags', len(dropped) == 1 and dropped[0] == {f for k, f in flags.items() if k in redundant})
+    left = {(k, t) for d in (ens.watcher_tasks, ens.peering_tasks, ens.pinging_tasks) for k, t in d.items()}
+    vc.ensure('forgets_exactly_the_redundant', left == {(k, t) for k, t in all_tasks if k not in redundant}
+              and set(ens.conflicts_found) == {k for k in flags if k not in redundant})
+    vc.ensure('stopped_before_forgotten', all(t.ended for k, t in all_tasks if k in redundant))
+    vc.canary('canary.nothing_redundant', not redundant)
+    return ('done', len(redundant), len(want_tasks))
